@@ -834,6 +834,13 @@ def run(prop, seed, budget, ctx):
         df, dn, dd, dh = run_discr(seed, budget, want={"C13": ("dispatch", "roundtrip", "tagged"), "C03": ("purity",), "C14": ("coerce",)}[prop])
         failures += df; distinct |= dd
         for k, v in dh.items(): hist["discriminated:" + k] += v
+        if prop == "C14":
+            # literals / enums whose values have several JSON types: accepted iff the coercion to the type of some value gives a value, whatever the order of the types
+            import lit_coerce
+            lf, ln, ld, lh = lit_coerce.run_part(seed, budget)
+            failures += lf; distinct |= ld; dn += ln
+            for k_, v_ in lh.items(): hist[k_] += v_
+            for f in lf: hist["P:" + f["why"][0].split(":")[0]] += 1
         if prop == "C13":
             # what the selected alternative *raises* (exceptions of the user's converters / validators) is what the union raises
             import exc_masking
@@ -988,7 +995,9 @@ KF = {
     "KF07": lambda c, why, im, k_ok: any(w.startswith("errors-not-computable:TypeError") for w in why) and k_ok is not False
                                      and '"dn"' in json.dumps(c["d"]),
     # float(int) overflows for |int| >= 2**1024 in FloatMethod (strict mode)
-    "KF08a": lambda c, why, im, k_ok: (_crash(why, "OverflowError") and k_ok is True and "float" in " ".join(c["features"]) and ("int too large" in im.get("msg", ""))) or
+    # (a union next to a class outside the model - aggregate fields - is not compared with the model: there the model's own verdict on the float alternative, the same crash, stands in for k_ok)
+    "KF08a": lambda c, why, im, k_ok: (_crash(why, "OverflowError") and (k_ok is True or (k_ok is None and (c.get("model") or {}).get("crash") == "OverflowError"))
+                                       and "float" in " ".join(c["features"]) and ("int too large" in im.get("msg", ""))) or
                                        (c.get("part") == "std-types" and why == ["crash:OverflowError"] and bool({"float", "Decimal"} & set(c["features"]))
                                         and "int too large to convert to float" in c["first"][1]),
     # unhashable elements where a set is built or uniqueness is tested: Set[List[int]], schema(unique=True) over lists / dicts
